@@ -280,3 +280,92 @@ Example rerun_example :
   | _ => False
   end.
 Proof. vm_compute. auto. Qed.
+
+(** * The hypotheses follow from the declarations *)
+Section FromDecls.
+  Variable parse_float : str -> option str.
+  Variable getenv : str -> str.
+
+  (** the constructor of a value: Set, Clear and SetFromEnv never change it *)
+  Definition shape (v : cval) : nat :=
+    match v with
+    | VBool _ => 0 | VStr _ => 1 | VInt _ => 2 | VFloat _ => 3 | VStrs _ => 4 | VInts _ => 5 | VFloats _ => 6 | VCustom _ => 7
+    end.
+
+  Lemma plain_shape k v w : shape w = shape v -> builtin v = true /\ kind_matches k v = true ->
+    builtin w = true /\ kind_matches k w = true.
+  Proof. destruct k, v, w; cbn; intros E [H1 H2]; try discriminate; auto. Qed.
+
+  Lemma vset_log_shape v s : shape (fst (vset_log parse_float v s)) = shape v.
+  Proof.
+    destruct v; cbn; try reflexivity;
+      try (destruct (parse_bool s)); try (destruct (parse_int s)); try (destruct (parse_float s)); reflexivity.
+  Qed.
+
+  Lemma vclear_shape v : shape (vclear v) = shape v.
+  Proof. destruct v; reflexivity. Qed.
+
+  Lemma set_all_trimmed_shape vs : forall v, shape (fst (set_all_trimmed parse_float v vs)) = shape v.
+  Proof.
+    induction vs as [|s vs IH]; intros v; cbn [set_all_trimmed]; [reflexivity|].
+    pose proof (vset_log_shape v (trim_space s)) as H.
+    destruct (vset_log parse_float v (trim_space s)) as [v' ok]. cbn [fst] in H.
+    destruct ok; [now rewrite IH | cbn [fst]; now rewrite vclear_shape].
+  Qed.
+
+  Lemma set_from_env_vars_shape k vars : forall v, shape (fst (set_from_env_vars parse_float getenv k v vars)) = shape v.
+  Proof.
+    induction vars as [|ev vars IH]; intros v; cbn [set_from_env_vars]; [reflexivity|].
+    destruct (getenv ev) as [|c0 val]; [apply IH|].
+    assert (H : shape (fst (if is_multi k then set_multivalued parse_float v (split_comma (c0 :: val))
+                            else vset_log parse_float v (c0 :: val))) = shape v).
+    { destruct (is_multi k); [unfold set_multivalued; now rewrite set_all_trimmed_shape, vclear_shape | apply vset_log_shape]. }
+    destruct (if is_multi k then _ else _) as [v' ok]. cbn [fst] in H.
+    destruct ok; [exact H | now rewrite IH].
+  Qed.
+
+  (** a declaration of a built-in kind with a default of that kind *)
+  Definition decl_plain (d : decl) : Prop := builtin (d_init d) = true /\ kind_matches (d_kind d) (d_init d) = true.
+
+  Lemma mk_container_plain d names : decl_plain d -> plain (mk_container parse_float getenv d names).
+  Proof.
+    intros Hd. unfold plain, mk_container, set_from_env.
+    pose proof (set_from_env_vars_shape (d_kind d) (fields (d_env d)) (d_init d)) as H.
+    destruct (set_from_env_vars parse_float getenv (d_kind d) (d_init d) (fields (d_env d))) as [v fe]. cbn [fst] in H.
+    cbn [ct_value ct_decl]. exact (plain_shape _ _ _ H Hd).
+  Qed.
+
+  Lemma mk_container_noenv d names : fields (d_env d) = [] -> ct_fromenv (mk_container parse_float getenv d names) = false.
+  Proof. intros H. unfold mk_container, set_from_env. rewrite H. reflexivity. Qed.
+
+  Lemma declare_plain ds : forall opts args opts' args',
+    Forall decl_plain ds -> Forall (fun d => fields (d_env d) = []) ds ->
+    declare parse_float getenv ds opts args = inl (opts', args') ->
+    Forall plain opts -> Forall plain args -> Forall (fun c => ct_fromenv c = false) opts ->
+    Forall plain opts' /\ Forall plain args' /\ Forall (fun c => ct_fromenv c = false) opts'.
+  Proof.
+    induction ds as [|d ds IH]; intros opts args opts' args' Hp He; cbn [declare].
+    - intros [= <- <-]. auto.
+    - inversion Hp as [|d0 ds0 Hd Hds]; subst. inversion He as [|d1 ds1 Hed Heds]; subst.
+      destruct (d_isopt d).
+      + unfold mk_opt. destruct (first_dup _ _); [discriminate|]. intros H Po Pa Fo.
+        apply (IH _ _ _ _ Hds Heds H); [|assumption|].
+        * apply Forall_app. split; [assumption|]. constructor; [now apply mk_container_plain | constructor].
+        * apply Forall_app. split; [assumption|]. constructor; [now apply mk_container_noenv | constructor].
+      + unfold mk_arg. destruct (negb _); [discriminate|]. destruct (mem_str _ _); [discriminate|]. intros H Po Pa Fo.
+        apply (IH _ _ _ _ Hds Heds H); [assumption| |assumption].
+        apply Forall_app. split; [assumption|]. constructor; [now apply mk_container_plain | constructor].
+  Qed.
+
+  (** for programs: declarations of built-in kinds, no environment variable named, any spec, any line *)
+  Theorem rerun_same_line_program ds spec i argv opts' args' :
+    Forall decl_plain ds -> Forall (fun d => fields (d_env d) = []) ds ->
+    do_init parse_float getenv ds spec = IOk i ->
+    fsm_parse parse_float i argv = PAccept opts' args' ->
+    fsm_parse parse_float (after_run i opts' args') argv = PAccept opts' args'.
+  Proof.
+    intros Hp He Hi Hrun. pose proof (do_init_conts parse_float getenv ds spec i Hi) as Hd.
+    destruct (declare_plain ds [] [] _ _ Hp He Hd (Forall_nil _) (Forall_nil _) (Forall_nil _)) as (Po & Pa & Fo).
+    now apply rerun_same_line.
+  Qed.
+End FromDecls.
